@@ -1,15 +1,10 @@
 /-
   CRProofs.XsdEnumT — C03, enumerations: the finite facts about the regenerated (member name, value) tables of the Python enums
-  against the regenerated schema term, and what follows for the text the writer model emits for a MEMBER (`enumValue`,
+  against the regenerated schema term (the traffic-sign tables: CRProofs.XsdEnumS), and what follows for the text the writer model emits for a MEMBER (`enumValue`,
   `lineMarkingLower`, `signValue`): it is a value the schema's simple type accepts.
 -/
 import CRProofs.Xsd
 import CRProofs.XsdEnum
-import CRProofs.XsdEnumA1
-import CRProofs.XsdEnumA2
-import CRProofs.XsdEnumA3
-import CRProofs.XsdEnumA4
-import CRProofs.XsdEnumB
 
 namespace CR.C03
 open CR.Xsd CR.XmlW CR.Py.Gen
@@ -42,45 +37,6 @@ theorem partial_members :
     ((staticTypes ++ dynamicTypes ++ environmentTypes).all fun n => (obstacleType.map (·.1)).contains n) = true := by decide
 
 theorem tag_values_nodup : (tag.map (·.2)).Nodup := by decide
-
-/-! ### traffic signs: accepted exactly if not UNKNOWN and not listed -/
-
-theorem gerExcl_iff (c n : String) (hc : c = "TrafficSignIDGermany" ∨ c = "TrafficSignIDZamunda") :
-    signNotExpressible.contains (c, n) = gerExcl.contains n := by
-  rcases hc with rfl | rfl <;> simp [signNotExpressible, gerExcl]
-
-theorem okNV_ger (p : String × String) (hp : p ∈ gerSigns) : okNV p = true := by
-  have := List.take_append_drop 120 gerSigns
-  rw [← this] at hp
-  rcases List.mem_append.mp hp with h | h
-  · exact List.all_eq_true.mp signs_ger_1 p h
-  · have := List.take_append_drop 60 (gerSigns.drop 120)
-    rw [← this] at h
-    rcases List.mem_append.mp h with h | h
-    · exact List.all_eq_true.mp signs_ger_2 p h
-    · exact List.all_eq_true.mp signs_ger_3 p h
-
-/-- every row of the 14 country tables: the schema accepts the value **iff** the member is neither `UNKNOWN` nor listed -/
-theorem sign_row (x : String × String × String) (hx : x ∈ trafficSignId) : signOk x = true := by
-  have fromNV : ∀ (hc : x.1 = "TrafficSignIDGermany" ∨ x.1 = "TrafficSignIDZamunda"), okNV x.2 = true → signOk x = true := by
-    intro hc h
-    unfold signOk; unfold okNV at h
-    rw [gerExcl_iff _ _ hc]; exact h
-  by_cases hg : x.1 = "TrafficSignIDGermany"
-  · exact fromNV (Or.inl hg) (okNV_ger x.2 (List.mem_map.mpr ⟨x, List.mem_filter.mpr ⟨hx, by simp [hg]⟩, rfl⟩))
-  · by_cases hz : x.1 = "TrafficSignIDZamunda"
-    · have : x.2 ∈ zamSigns := List.mem_map.mpr ⟨x, List.mem_filter.mpr ⟨hx, by simp [hz]⟩, rfl⟩
-      rw [signs_zam_eq_ger] at this
-      exact fromNV (Or.inr hz) (okNV_ger x.2 this)
-    · exact List.all_eq_true.mp signs_other x (List.mem_filter.mpr ⟨hx, by simp [hg, hz]⟩)
-
-theorem sign_accepts_iff (x : String × String × String) (hx : x ∈ trafficSignId) :
-    acceptsV "trafficSignID" x.2.2 = true ↔ (x.2.1 ≠ "UNKNOWN" ∧ (x.1, x.2.1) ∉ signNotExpressible) := by
-  have h := sign_row x hx
-  unfold signOk at h
-  rw [beq_iff_eq] at h
-  rw [h]
-  simp
 
 /-! ### from a member to the accepted text -/
 
@@ -147,34 +103,10 @@ theorem ok_dynamic {n : String} (h : n ∈ dynamicTypes) : acceptsV "obstacleTyp
 theorem ok_environment {n : String} (h : n ∈ environmentTypes) : acceptsV "obstacleTypeEnvironment" (enumValue obstacleType n) = true :=
   accepts_listed enum_partial.2.2.2.2.2 (listed_member partial_members.2.2 (by simp [h])) h
 
-/-- a traffic-sign element the schema can express: the written id is a schema value -/
-theorem ok_sign {e : String × String × List String} (h : SignElemOk e) : acceptsV "trafficSignID" (signValue e.1 e.2.1) = true := by
-  obtain ⟨hs, hu, hl⟩ := h
-  unfold signValue
-  cases hx : signEntry e.1 e.2.1 with
-  | none => rw [hx] at hs; simp at hs
-  | some x =>
-    have hmem : x ∈ trafficSignId := List.mem_of_find?_eq_some hx
-    have hp := List.find?_some hx
-    simp only [Bool.and_eq_true, beq_iff_eq] at hp
-    simp only
-    rw [sign_accepts_iff x hmem, hp.1, hp.2]
-    exact ⟨hu, hl⟩
-
 /-- tags: the value of a member is an element the `tag` type declares; different members have different values -/
 theorem ok_tag {n : String} (h : memberOf tag n) : enumValue tag n ∈ (elemsOf (schema.content "tag")).map (·.name) := by
   have := List.all_eq_true.mp enum_total.2.2.2.2.2.2.1 _ (enumValue_mem h)
   simpa [List.contains_iff_mem] using this
-
-theorem nodup_map_inj {α β} {f : α → β} : ∀ {l : List α}, (l.map f).Nodup → ∀ {x y}, x ∈ l → y ∈ l → f x = f y → x = y
-  | [], _, _, _, hx, _, _ => by cases hx
-  | a :: as, hnd, x, y, hx, hy, hxy => by
-    rw [List.map_cons, List.nodup_cons] at hnd
-    rcases List.mem_cons.mp hx with rfl | hx' <;> rcases List.mem_cons.mp hy with rfl | hy'
-    · rfl
-    · exact absurd (List.mem_map.mpr ⟨y, hy', hxy.symm⟩) hnd.1
-    · exact absurd (List.mem_map.mpr ⟨x, hx', hxy⟩) hnd.1
-    · exact nodup_map_inj hnd.2 hx' hy' hxy
 
 theorem tag_value_inj {a b : String} (ha : memberOf tag a) (hb : memberOf tag b) (h : enumValue tag a = enumValue tag b) : a = b := by
   have h1 := enumValue_mem ha
